@@ -371,6 +371,15 @@ def m_iter_zip(ex, st, callee, args, dest_ty):
     yield st, Opaque("Zip", info=(args[0], args[1]))
 
 
+def m_iter_skip(ex, st, callee, args, dest_ty):
+    """slice::Iter::skip(n) for a concrete n: the same iterator n positions further (next() past the end yields None either way)"""
+    it, n = args[0], ex.concrete(args[1].e)
+    if n is None or it.sort != "SliceIter":
+        raise MirUnsupported("skip(%r) on %r" % (args[1], it))
+    base, pos = it.info
+    yield st, Opaque("SliceIter", it.e, (base, pos + n))
+
+
 def m_iter_enumerate(ex, st, callee, args, dest_ty):
     yield st, Opaque("Enumerate", info=(args[0], 0))
 
@@ -600,6 +609,9 @@ VALUE_MODELS = [
     (R(r"^<(std::slice::Iter(Mut)?<.*>|Zip<.*>|std::collections::btree_map::Iter<.*>|Enumerate<.*>) as Iterator>::next$"), m_iter_next),
     (R(r"^<std::slice::Iter(Mut)?<.*> as Iterator>::zip::<.*>$"), m_iter_zip),
     (R(r"^<std::slice::Iter(Mut)?<.*> as Iterator>::enumerate$"), m_iter_enumerate),
+    (R(r"^<std::slice::Iter(Mut)?<.*> as Iterator>::skip$"), m_iter_skip),
+    (R(r"^<(std::iter::)?Skip<.*> as IntoIterator>::into_iter$"), m_into_iter_id),
+    (R(r"^<(std::iter::)?Skip<.*> as Iterator>::next$"), m_iter_next),
     (R(r"^<(Zip<.*>|std::slice::Iter(Mut)?<.*>|Enumerate<.*>) as IntoIterator>::into_iter$"), m_into_iter_id),
     (R(r"^<&BTreeMap<.*> as IntoIterator>::into_iter$|^BTreeMap::<.*>::iter$"), m_btree_into_iter),
     (R(r"^BTreeMap::<.*>::keys$"), m_btree_keys),
